@@ -25,7 +25,8 @@ MANIFEST = dict(
          "the real gw_backend.c after every event): 5xx on every request finished without a response; no "
          "request left waiting past a configured timeout after a tick; 503 / hostless retry only when the "
          "oracle's own availability view has no live proc; connect-timeout takes the backend out of rotation; "
-         "balance choice recomputed; connect() calls recounted per request",
+         "balance choice recomputed; connect() calls recounted per request; arrivals include requests "
+         "gw_check_extension refuses after host choice (upgrade policy 405) and Upgrade headers it strips",
     note="trusted: Lean kernel (+propext, Quot.sound, Classical.choice); hand-written model validated by the h_gw "
          "correspondence after every event (struct counters, the plugin_stats entries looked up by the same "
          "text key lighttpd uses, proc states, disabled_until, per-request link/state/retry count/timestamps/"
